@@ -13,6 +13,7 @@ pub mod c06;
 pub mod c07;
 pub mod c08;
 pub mod c08_sched;
+pub mod fuzzers;
 pub mod c09;
 pub mod c10;
 pub mod c11;
